@@ -93,6 +93,7 @@ var aliasLeafTypes = []string{
 
 func aliasProfile() shape.Profile {
 	p := shape.FullProfile()
+	p.AllowEmptyStructs = true
 	p.LeafTypes = aliasLeafTypes
 	return p
 }
